@@ -18,14 +18,15 @@ import (
 const NumSlots = 16384
 
 type LogEntry struct {
-	Step     int64
-	Node     int
-	Conn     string
-	Asking   bool
-	ReadOnly bool
-	Args     [][]byte
-	Accepted bool // executed here (not redirected)
-	Reply    resp2.Value
+	Step      int64
+	Node      int
+	Conn      string
+	Asking    bool
+	ReadOnly  bool
+	Args      [][]byte
+	Accepted  bool // executed here (not redirected)
+	AsReplica bool // the executing node was a replica at that moment
+	Reply     resp2.Value
 }
 
 type Conn struct {
@@ -204,7 +205,7 @@ func (nc *Conn) execOne() {
 	asking, ro := nc.asking, nc.readonly
 	reply, accepted := n.exec(nc, args)
 	if n.c.KeepLog {
-		n.c.Log = append(n.c.Log, LogEntry{Step: n.c.rt.Step, Node: n.Idx, Conn: nc.ID, Asking: asking, ReadOnly: ro, Args: args, Accepted: accepted, Reply: reply})
+		n.c.Log = append(n.c.Log, LogEntry{Step: n.c.rt.Step, Node: n.Idx, Conn: nc.ID, Asking: asking, ReadOnly: ro, Args: args, Accepted: accepted, AsReplica: n.MasterOf >= 0, Reply: reply})
 	}
 	if n.Silent {
 		return
